@@ -2,6 +2,7 @@
 // Node tree, per-node request handling, spontaneous traffic, transport faults.
 // Written from the BiDiB specification; bidib_messages.h is used for numeric codes only.
 #pragma once
+#include <array>
 #include <stdint.h>
 #include <vector>
 #include <deque>
@@ -91,6 +92,8 @@ struct Bus {
 	std::function<void(const uint8_t *, int32_t)> on_write_raw;
 	std::function<void(UpFrame &)> on_processed;      // frame known to be fully processed by the receiver
 	std::function<void(UpFrame &)> on_delivered;      // last byte of frame just handed to the receiver
+	bool overtakable_next = false;
+	std::vector<std::array<uint64_t, 3>> type_delay_once;        // (answer type, n, extra us): only the n-th answer of that type is late, so the next one overtakes it
 	std::function<bool(Node &, const ref::Msg &)> on_request;   // return true to suppress default answer
 
 	// ------------------------------------------------ topology
@@ -175,7 +178,8 @@ struct Bus {
 			uint64_t st = sim::grid_round(sim::now_us() + delay_us);
 			if (st <= nodes[(size_t) node].last_start_us) st = sim::grid_round(nodes[(size_t) node].last_start_us + (sim::grid_round(3) > 3 ? 0 : 1));
 			delay_us = st - sim::now_us();
-			nodes[(size_t) node].last_start_us = st;
+			if (!overtakable_next) nodes[(size_t) node].last_start_us = st;     // a frame marked overtakable does not hold back the node's later frames
+			overtakable_next = false;
 		}
 		UpFrame copy = f;
 		uint64_t r = enqueue(std::move(f), delay_us, gap, split_at, split_gap).id;
@@ -394,6 +398,7 @@ struct Bus {
 		uint64_t extra = 0;
 		auto td = type_delays.find(a.type);
 		if (td != type_delays.end() && answered_types[a.type] >= td->second.first) { extra = td->second.second; fired["slow-node"]++; if (extra >= 2000000) fired["delay>=2s"]++; }
+		for (auto &o : type_delay_once) if ((int) o[0] == a.type && answered_types[a.type] == o[1]) { extra += o[2]; overtakable_next = true; fired["answer-late-and-overtakable"]++; }
 		ref::Msg r; r.type = a.type; r.data = a.data;
 		emit_msgs(idx, {r}, fs, resp_delay_us + extra, 0, true);
 	}
